@@ -128,9 +128,9 @@ def gen_shapes():
 
 
 P_TARGETS = ["sliceS", "sliceInt", "sliceIface", "sliceIfaceVal", "sliceSVal", "arrS", "arrSVal", "mapStrInt", "nilMap", "ptrNilMap",
-             "mapIntS", "zoo", "zooL", "nested", "nilFunc", "mapSimple", "zooVal"]
+             "mapIntS", "zoo", "zooL", "nested", "nilFunc", "mapSimple", "zooVal", "embNil"]
 P_OPS = ["get", "getf", "set", "setf", "del", "def", "push", "pop", "shift", "unshift", "splice", "sort", "sortcmp", "sortshrink", "sortgrow",
-         "reverse", "fill", "copyWithin", "len", "forin", "json", "spread", "keys", "freeze", "pe", "proto", "sym", "neg", "goappend", "goshrink", "call", "defnov", "seal"]
+         "reverse", "fill", "copyWithin", "len", "forin", "json", "spread", "keys", "freeze", "pe", "proto", "sym", "neg", "goappend", "goshrink", "call", "defnov", "seal", "fld"]
 
 
 def gen_P(rng):
@@ -210,6 +210,108 @@ def gen_Y(rng):
         else:
             toks.append("l:" + ",".join("r%d" % rng.choice(ids["n"]) for _ in range(rng.randint(0, 3))))
     return "Y %s %s" % (rng.choice("YZ"), " ".join(toks))
+
+
+def gen_I(rng):
+    """plain objectGoSlice: []interface{} by value / *[]interface{}; backing array with stale items in the spare capacity"""
+    byptr = rng.random() < 0.65
+    ncell = rng.randint(0, 7)
+    cells = [("-" if rng.random() < 0.15 else str(rng.randint(1, 99))) for _ in range(ncell)]
+    n0 = rng.randint(0, ncell)
+    ops = []
+    for _ in range(rng.randint(1, 20)):
+        r = rng.random()
+        if r < 0.14: ops.append("get:%d" % rng.randint(0, 8))
+        elif r < 0.30: ops.append("set:%d:%s" % (rng.randint(0, 9), rng.choice(["n"] + [str(rng.randint(100, 199))] * 4)))
+        elif r < 0.46: ops.append("len:%d" % rng.randint(0, 9))
+        elif r < 0.52: ops.append("del:%d" % rng.randint(0, 8))
+        elif r < 0.58: ops.append("push:%d" % rng.randint(200, 299))
+        elif r < 0.64: ops.append("pop")
+        elif not byptr: ops.append("len:%d" % rng.randint(0, 9))
+        elif r < 0.76: ops.append("gt:%d" % rng.randint(0, 6))
+        elif r < 0.84: ops.append("gs:%d" % rng.randint(0, 9))
+        elif r < 0.90: ops.append("ga:%d" % rng.randint(300, 399))
+        elif r < 0.94: ops.append("gr:%d" % rng.randint(0, 10))
+        else: ops.append("gw:%d:%s" % (rng.randint(0, 8), rng.choice(["n", str(rng.randint(400, 499))])))
+    return "I %s %d %s | %s" % ("p" if byptr else "v", n0, ",".join(cells) if cells else ".", " ".join(ops))
+
+
+def gen_K(rng):
+    n = rng.randint(1, 4)
+    vals = [rng.randint(1, 30) for _ in range(n)]
+    ops, ne, nn = [], 0, 0
+    for _ in range(rng.randint(2, 20)):
+        r = rng.random()
+        if r < 0.22: ops.append("get:%d" % rng.randint(0, n)); ne += 1
+        elif r < 0.40 and ne: ops.append("in:%d" % rng.randint(0, ne - 1)); nn += 1
+        elif r < 0.50: ops.append("set:%d:%d" % (rng.randint(0, n), rng.randint(40, 99)))
+        elif r < 0.62: ops.append("cp:%d:%d" % (rng.randint(0, n - 1), rng.randint(0, n - 1)))
+        elif r < 0.72 and nn: ops.append("wx:%d:%d" % (rng.randint(0, nn - 1), rng.randint(100, 199)))
+        elif r < 0.80 and ne: ops.append("wpx:%d:%d" % (rng.randint(0, ne - 1), rng.randint(200, 299)))
+        elif r < 0.88: ops.append("gw:%d:%d" % (rng.randint(0, n), rng.randint(300, 399)))
+        elif r < 0.94: ops.append("len:%d" % rng.randint(0, n + 6))
+        else: ops.append("sort")
+    return "K %d %s | %s" % (n + rng.choice([0, 0, 2]), ",".join(map(str, vals)), " ".join(ops))
+
+
+def spec_K(line):
+    """documented semantics for *[]Outer{In Inner{X}; Y}: element wrappers as in spec_W; a nested wrapper p.In is a
+    reference to the In of whatever its parent wrapper denotes (slot while attached, the copy once detached)."""
+    f = line.split()
+    sl = [[int(x), 100 + i] for i, x in enumerate(f[2].split(","))] if f[2] != "-" else []
+    H, at, N = [], {}, {}      # H[h] = ["att", i] | ["det", [x, y]];  N: elem handle -> nested handle number
+    order = []                  # nested handle number -> parent elem handle
+    def cur(h): return sl[H[h][1]] if H[h][0] == "att" else H[h][1]
+    def detach(i):
+        if i in at:
+            h = at.pop(i); H[h] = ["det", list(sl[i])]
+    out = []
+    for tok in f[4:]:
+        p = tok.split(":"); o = p[0]; g = ""
+        if o == "get":
+            i = int(p[1])
+            if i < len(sl):
+                if i not in at: at[i] = len(H); H.append(["att", i])
+                g = "g=%d " % at[i]
+            else: g = "g=- "
+        elif o == "in":
+            h = int(p[1])
+            if h < len(H):
+                if h not in N: N[h] = len(order); order.append(h)
+                g = "n=%d " % N[h]
+        elif o in ("set", "cp"):
+            i = int(p[1])
+            if o == "cp":
+                j = int(p[2])
+                if j >= len(sl): out.append(None); continue
+                newv = list(sl[j])
+            else:
+                newv = [int(p[2]), 0]
+            if i >= len(sl): sl.extend([[0, 0] for _ in range(i + 1 - len(sl))])
+            detach(i); sl[i] = newv
+        elif o == "wx":
+            k = int(p[1])
+            if k < len(order): cur(order[k])[0] = int(p[2])
+        elif o == "wpx":
+            h = int(p[1])
+            if h < len(H): cur(h)[0] = int(p[2])
+        elif o == "gw":
+            if int(p[1]) < len(sl): sl[int(p[1])][0] = int(p[2])
+        elif o == "len":
+            n = int(p[1])
+            for i in range(n, len(sl)): detach(i)
+            if n > len(sl): sl.extend([[0, 0] for _ in range(n - len(sl))])
+            else: del sl[n:]
+        elif o == "sort":
+            perm = sorted(range(len(sl)), key=lambda k: sl[k][0])
+            sl = [sl[k] for k in perm]
+            nat = {}
+            for newpos, old in enumerate(perm):
+                if old in at: nat[newpos] = at[old]; H[at[old]] = ["att", newpos]
+            at = nat
+        out.append("%slen=%d s=[%s] h=[%s] n=[%s]" % (g, len(sl), ",".join("%d/%d" % (x, y) for x, y in sl),
+                   ",".join("%d/%d" % tuple(cur(h)) for h in range(len(H))), ",".join(str(cur(h)[0]) for h in order)))
+    return out
 
 
 def gen_gateways():
@@ -411,6 +513,8 @@ def model_lines(lines):
 def classify_P(line, res):
     ops = [t.split(":")[0] for t in line.split()[2:]]
     target = line.split()[1]
+    if "nil pointer to embedded struct" in res:
+        return "nil-embedded-pointer-field"
     m = re.search(r"op=(\w+)", res)
     if m and m.group(1) in ("defnov", "seal", "freeze") and "nil pointer dereference" in res and target in ("mapStrInt", "mapIntS", "nilMap", "ptrNilMap"):
         return "gomap-reflect-define-without-value"
@@ -458,7 +562,7 @@ def main(ctx):
     ctx.lake_build(["GojaModel.C13.Props", "GojaModel.C13.Tie"])
     # the driver does not depend on Props/Tie: a broken theorem or tie must not switch the correspondence off
     ok, errs = ctx.lake_build(["model_c13"])
-    ctx.audit("GojaModel.C13.Props", expect_min=32)
+    ctx.audit("GojaModel.C13.Props", expect_min=36)
     if not quick:
         ctx.leanchecker("GojaModel.C13.Props")
     ctx.log("lean done")
@@ -502,7 +606,10 @@ def main(ctx):
     V = [l for l in corpus if l.startswith("V ")] + [gen_V(rng) for _ in range(300 if quick else 10000)]
     Mm = [l for l in corpus if l.startswith("M ")] + [gen_M(rng) for _ in range(300 if quick else 10000)]
     CJ = gen_gateways()
-    both = W + NF + Sx + X + V + Mm + CJ
+    Ig = [l for l in corpus if l.startswith("I ")] + [gen_I(rng) for _ in range(800 if quick else 30000)]
+    both = W + NF + Sx + X + V + Mm + CJ + Ig
+    K = [l for l in corpus if l.startswith("K ")] + [gen_K(rng) for _ in range(400 if quick else 15000)]
+    f_k = bg.submit(run_sharded, ctx, h, K, 3)
 
     # ---------------- all streams at once: implementation (sharded), model driver, and the oracle-only streams
     f_h = bg.submit(run_sharded, ctx, h, both, 8)
@@ -523,7 +630,7 @@ def main(ctx):
     hres = f_h.result()
     ctx.log("correspondence streams done")
     ctx.count(len(both))
-    groups = {"W": [], "N": [], "F": [], "G": [], "S": [], "X": [], "V": [], "M": [], "C": [], "J": []}
+    groups = {"W": [], "N": [], "F": [], "G": [], "S": [], "X": [], "V": [], "M": [], "C": [], "J": [], "I": []}
     for i, l in enumerate(both):
         groups[l[0]].append(i)
     opmix, lens = {}, {}
@@ -543,12 +650,31 @@ def main(ctx):
         if sig not in found:
             found[sig] = (summary, replay)
 
-    for gname in ("M", "C", "J"):
+    for gname in ("M", "C", "J", "I"):
         for i in groups[gname]:
             ctx.nontriv(both[i])
             if hres[i].startswith("INCONCLUSIVE"): continue
             if "PANIC" in hres[i] or (mres[i] is not None and hres[i] != mres[i]):
-                what = {"M": "map-wrapper", "C": "gofunc-gateway", "J": "jsfunc-gateway"}[gname]
+                what = {"M": "map-wrapper", "C": "gofunc-gateway", "J": "jsfunc-gateway", "I": "goslice-live-view"}[gname]
+                if gname == "I":
+                    # shrink the history and name the op after which the views diverge
+                    pre, ops_i = both[i].split()[:5], both[i].split()[5:]
+                    def bad_at(sub, pre=pre):
+                        l2 = " ".join(pre + sub)
+                        rc, o, _ = ctx.run_lines([h], [l2], timeout=300)
+                        rc2, m2, _ = ctx.run_lines([model], [l2], timeout=300) if model_ok else (0, o, "")
+                        return bool(o) and bool(m2) and o[0] != m2[0]
+                    try:
+                        sub = Ctx.ddmin(ops_i, bad_at)
+                    except Exception:
+                        sub = ops_i
+                    l2 = " ".join(pre + sub)
+                    rc, o, _ = ctx.run_lines([h], [l2], timeout=300)
+                    rc2, m2, _ = ctx.run_lines([model], [l2], timeout=300) if model_ok else (0, [None], "")
+                    report("goslice-live-view:%s" % "+".join(sorted(set(x.split(":")[0] for x in sub))),
+                           "plain []interface{} wrapper: script view / Go value differ from the documented behaviour: %s -> %s (expected %s)" % (l2, (o or ["?"])[0][:300], (m2 or ["?"])[0]),
+                           {"kind": "history", "lines": [l2], "expected": m2, "observed": o})
+                    continue
                 report("%s:%s" % (what, re.sub(r"\W+", "-", both[i])[:40]), "%s: implementation %s, documented behaviour (model) %s" % (both[i], hres[i][:300], (mres[i] or "")[:300]),
                        {"kind": "history" if gname == "M" else "input", "lines": [both[i]], "expected": [mres[i]], "observed": [hres[i]]})
     for i in groups["W"] + groups["V"]:
@@ -677,6 +803,40 @@ def main(ctx):
                    {"kind": "input", "lines": [line], "expected": [want], "observed": [got]})
     ctx.stats["E_results"] = dict(zip(E, eres))
 
+    # K: nested wrappers (element wrapper -> field wrapper): documented semantics vs implementation
+    kres = f_k.result()
+    ctx.count(len(K))
+    kbad = []
+    for line, r in zip(K, kres):
+        ctx.nontriv(line)
+        if r.startswith("INCONCLUSIVE"):
+            continue
+        spec = spec_K(line)
+        for k, (got, want) in enumerate(zip(r.split(" ; "), spec)):
+            if want is None:
+                break
+            if got != want:
+                kbad.append((line, k, got, want))
+                break
+    ctx.stats["K_cases"] = len(K)
+    if kbad:
+        line, k, got, want = min(kbad, key=lambda x: (x[1], len(x[0])))
+        pre, ops_k = line.split()[:4], line.split()[4:k + 5]
+        def kfails(sub, pre=pre):
+            l2 = " ".join(pre + sub)
+            rc, o, _ = ctx.run_lines([h], [l2], timeout=300)
+            if not o: return False
+            return any(w is not None and g != w for g, w in zip(o[0].split(" ; "), spec_K(l2)))
+        try:
+            ops_k = Ctx.ddmin(ops_k, kfails)
+        except Exception:
+            pass
+        l2 = " ".join(pre + ops_k)
+        rc, o, _ = ctx.run_lines([h], [l2], timeout=300)
+        sig = "PANIC" in (o or [""])[0] and "nested-wrapper-panic" or "nested-wrapper-not-repointed"
+        report(sig, "a nested field wrapper (p.In) does not follow the value its parent element wrapper denotes: %s -> %s (documented: %s)" % (l2, (o or ["?"])[0][:300], " ; ".join(x or "?" for x in spec_K(l2))[:300]),
+               {"kind": "history", "lines": [l2], "expected": spec_K(l2), "observed": o})
+
     # Y: within ONE ExportTo the same script object must be the same Go value at every destination of the same type,
     # whatever the order of untyped (interface{}) and typed (struct pointer / named map / typed slice) visits
     yres = f_y.result()
@@ -745,9 +905,11 @@ def replay(ctx, path):
             print("target        : *%sNode (struct{Any interface{}; Next *T; M map; L []*T; Any2 interface{}; ...}); script graph nodes n0.. as listed" % l.split()[1])
         print("input         :", l)
         print("implementation:", x)
-        if l[0] in "WNFGSXVMCJ" and os.path.exists(ctx.model_exe()):
+        if l[0] in "WNFGSXVMCJI" and os.path.exists(ctx.model_exe()):
             rc2, m, _ = ctx.run_lines([ctx.model_exe()], model_lines([l]), timeout=300)
             print("mechanism model:", m[0] if m else "?")
+        if l[0] == "K":
+            print("documented spec:", " ; ".join(x or "?" for x in spec_K(l)))
         if l[0] in "WV":
             print("documented spec:", " ; ".join(spec_W("W" + l[1:])))
     if r.get("expected"):
